@@ -207,7 +207,7 @@ func (c *Controller) Execute(ctx context.Context) error {
 			c.peerID = ""
 			c.tpt = nil
 			for _, link := range c.links {
-				c.flushEstablishedLink(link, true)
+				c.flushEstablishedLink(link, true, nil)
 			}
 			broadcast()
 		})
@@ -379,8 +379,9 @@ func (c *Controller) DialPeerAddr(ctx context.Context, peerID peer.ID, opts *dia
 }
 
 // flushEstablishedLink closes an established link and cleans it up.
+// nextLnk is the link that replaces it, if any.
 // mtx is locked by caller
-func (c *Controller) flushEstablishedLink(el *establishedLink, hasNextLink bool) {
+func (c *Controller) flushEstablishedLink(el *establishedLink, hasNextLink bool, nextLnk link.Link) {
 	le := c.loggerForLink(el.lnk)
 	le.Info("link lost/closed")
 
@@ -427,9 +428,16 @@ func (c *Controller) flushEstablishedLink(el *establishedLink, hasNextLink bool)
 			return false
 		}
 
-		// clear the lnk value and restart if we dont already have a new link.
+		// if the link was replaced by a new link with the same peer, the dialer is
+		// now resolved with that link (and is restarted when that link is lost).
+		if nextLnk != nil && nextLnk.GetRemotePeer() == peerID {
+			ld.lnk.SetValue(nextLnk)
+			return false
+		}
+
+		// clear the lnk value and restart the dialer (unless we are shutting down).
 		ld.lnk.SetValue(nil)
-		return !hasNextLink
+		return !hasNextLink || nextLnk != nil
 	})
 
 	// Call close on the link on a separate goroutine.
